@@ -2,4 +2,5 @@ pub mod c04;
 pub mod c05;
 pub mod c08;
 pub mod c09;
+pub mod c11;
 pub mod libprops;
